@@ -58,6 +58,9 @@ ASSUMPTIONS = [
     "'no room' also fires when MPF launches towards a device whose own most recent kick is physically falling back "
     "into it while MPF still has that eject unconfirmed (state ball_left/failed_confirm) and the returning ball fills "
     "the last slot; a fall back of an eject MPF already confirmed (e.g. by playfield timeout) is not counted",
+    "entrance-counted locks may have two entrance lanes (one switch each) and an entrance_switch_ignore_window_ms; each "
+    "entering ball takes one lane; two balls never pass the SAME lane closer together than the ignore window + 0.25 s "
+    "(the second queues), different lanes are independent",
     "ball search is left at its default (disabled); a loose ball at a rest point sits still (no switch hits)",
 ]
 HORIZONS = {"rest_horizon_virtual_s": 200, "settle_cap_virtual_s": 4000}
